@@ -572,7 +572,8 @@ class FmtStr:
         """Gets atts shared among all nonzero length component Chunks"""
         # TODO cache this, could get ugly for large FmtStrs
         atts = {}
-        first = self.chunks[0]
+        # candidates come from the first nonzero length chunk (if there is one)
+        first = next((fs for fs in self.chunks if len(fs) > 0), self.chunks[0])
         for att in sorted(first.atts):
             # TODO how to write this without the '???'?
             if all(
